@@ -74,6 +74,21 @@ func init() {
 					top.Kust["sortOptions"] = Obj{"order": "fifo"}
 				}
 			}
+			if r.Intn(3) == 0 {
+				// documents that END in a block scalar with trailing line breaks (`|+`): the separator that follows must not eat them
+				L := t.Layers[r.Intn(len(t.Layers))]
+				tail := pickS(r, []string{"text\n\n", "two\nlines\n\n\n", "one\n", "\n\n", "no break"})
+				var ds []Obj
+				if r.Intn(2) == 0 {
+					ds = append(ds, Obj{"apiVersion": "v1", "kind": "Secret", "metadata": Obj{"name": "trail-secret"}, "stringData": Obj{"a": "x", "note": tail}})
+				}
+				ds = append(ds, Obj{"apiVersion": "example.com/v1", "kind": "TrailKind", "metadata": Obj{"name": "trail-obj"}, "spec": Obj{"a": float64(1), "zz": tail}})
+				if r.Intn(2) == 0 {
+					ds = append(ds, Obj{"apiVersion": "v1", "kind": "Secret", "metadata": Obj{"name": "trail-last"}, "stringData": Obj{"note": tail}})
+				}
+				L.ResF = append(L.ResF, "trail.yaml")
+				L.Docs["trail.yaml"] = ds
+			}
 			if r.Intn(4) == 0 {
 				// inputs that already carry bookkeeping annotations (the output of an earlier build with buildMetadata,
 				// or of another kio tool, fed back in): without buildMetadata none of them may survive
